@@ -5,6 +5,7 @@ import math
 
 import analysis
 import common
+import reuse
 from analysis import CELLS, make_case, run_cases
 from common import Check
 
@@ -34,7 +35,7 @@ def float_end_to_end(chk: Check, n):
         if k % 7 == 6:
             # LARGE samples / degrees of freedom (a t quantile at df ~ 3e4 still differs from the normal one by ~1e-5)
             nc, nt = int(rng.integers(20000, 40000)), int(rng.choice([150, 25000]))
-        loc = float(rng.choice([0.5, 3.0, -2.0, 100.0]))
+        loc = float(rng.choice([0.5, 3.0, -2.0, 100.0, 3e8]))        # also a level huge next to the spread
         xc = rng.normal(loc, rng.uniform(0.2, 3), nc)
         xt = rng.normal(loc * rng.uniform(0.8, 1.3), rng.uniform(0.2, 3), nt)
         special = None
@@ -56,6 +57,12 @@ def float_end_to_end(chk: Check, n):
         # carrying the id 0 / False / "" (a legitimate id that is falsy in Python)
         cvar, tvar = [(0, 1), (1, 0), (True, False), ("b", "")][k % 4] if k % 3 == 1 else (0, 1)
         data = pa.table({"variant": [cvar] * nc + [tvar] * nt, "x": np.concatenate([xc, xt])})
+        # every route into the same analysis: PyArrow, pandas, Polars eager and LAZY
+        route = ("pyarrow", "polars-lazy", "pandas", "polars")[k % 4]
+        if route != "pyarrow" and not isinstance(cvar, bool):
+            import polars as pl
+            data = {"polars-lazy": lambda t: pl.from_arrow(t).lazy(), "pandas": lambda t: t.to_pandas(),
+                    "polars": lambda t: pl.from_arrow(t)}[route](data)
         try:
             if k % 2:
                 # explicit options must win over whatever the global configuration says at construction time
@@ -117,7 +124,7 @@ def float_end_to_end(chk: Check, n):
             if not ok:
                 chk.fail(f"float end-to-end: field {f} differs from scipy/closed form",
                          dict(cell=[alt, ev, ut], confidence_level=cl, n=[nc, nt], field=f, observed=g, expected=e,
-                              control_id=repr(cvar), treatment_id=repr(tvar),
+                              control_id=repr(cvar), treatment_id=repr(tvar), input=route,
                               control=xc.tolist()[:200], treatment=xt.tolist()[:200]))
                 break
     chk.cov["float_e2e_worst_rel_err"] = worst
@@ -142,6 +149,8 @@ def main():
     float_end_to_end(chk, 36 if chk.tier == "quick" else 600)
     analysis.float_far_tail(chk, 12 if chk.tier == "quick" else 120, clauses=("textbook",))
     analysis.narrow_ints(chk, 4 if chk.tier == "quick" else 24, "the test computed from raw observations")
+    reuse.analyze_after_mutation(chk, 4 if chk.tier == "quick" else 16, "the test is not the one of the raw observations the frame holds")
+    reuse.aggregates_object_reuse(chk, 6 if chk.tier == "quick" else 48, "the test is not the one of the statistics handed over")
     chk.cov["rule"] = ("random rational samples (2..28 per variant, balanced and 1:many), all 12 option cells x "
                        "random confidence levels, exact vs Lean spec/model; plus float end-to-end runs vs scipy")
     chk.cov["proved"] = proved
